@@ -65,6 +65,8 @@ def coq_term(t):
 
 def coq_event(e):
     b = e["base"]
+    if b[0] == "twin":
+        raise ValueError("twin events are split into separate model runs")
     args = " ".join(str(x) for x in b[1:])
     o = "true" if e.get("other") else "false"
     u = "true" if e.get("unwinding") else "false"
@@ -266,7 +268,7 @@ def shrink_candidates(case):
     out = []
     evs = case["events"]
     for i in range(len(evs)):
-        if evs[i]["base"][0] in ("call",):
+        if evs[i]["base"][0] in ("call", "count", "lend", "arm", "callown"):
             c = copy.deepcopy(case)
             del c["events"][i]
             out.append(c)
